@@ -7,6 +7,11 @@ NOTE = ('Trusted: clang-14 front end/-O1, vlib/ll2c.py (differentially validated
         'CBMC C semantics and solvers. Bounds (loop unwindings with --unwinding-assertions, fixture family, request budgets) are listed in the evidence file; '
         'everything outside them is outside the claim.')
 CHECKS = {
+ 'C07': ('Bounded sequences of symbolic plan edits (append / remove-while-iterating / clear, with a no-op choice so shorter sequences are covered) through the real Instance::plan(region) against a ghost model of per-region sequences, CBMC bounds/pointer checks on, plan walks bounded with unwinding assertions (acyclicity).', '4 C07'),
+ 'C10': ('Self-composition: two storage objects with fully symbolic prior contents, the real constructor on both (built-in and stub generators, Automatic activation), identical callback answers => identical callback sequences and configurations; a copy-constructed instance with plans in flight continues exactly like the original.', '4 C10'),
+ 'C14': ('Symbolic independent payload values on one or two queued requests (each with or without payload); guards, enter() callbacks, previousTransitions() and lastTransitionTo() must expose exactly each request\'s own payload.', '4 C14'),
+ 'C15': ('Product program: the same machine compiled under two configurations (base vs base + one feature / all-on / development headers), symbol-prefixed and linked into one harness; one symbolic Inv pre-state and one API entry with shared per-callback decisions must give identical callback sequences and configurations.', '4 C15'),
+ 'C17': ('Per structure of an enumerated family: constexpr numbering/counts of the real templates and the run-time tables built by deepRegister() against an independent computation from the structure term, for a symbolic state/region/fork index.', '4 C17'),
  'C01': ('One-step inductive check on the real templates instantiated for a fixture family: from EVERY configuration satisfying the representation invariant Inv (symbolic fork arrays), one public API entry (update, immediate* of every kind to every state, reset, queued requests + update, constructor path) with nondeterministic guard/update callbacks (approve/cancel/substitute/request any kind to any state) preserves Inv, keeps the forks well-formed inside every callback, and the API-level statement (isActive/activeSubState) holds for every Inv state.', '4 C01'),
  'C02': ('Full equality of the (active, resumable) vectors produced by the real processTransitions with a reference model written from the statement (sequential application of the batch on the pending configuration, kind-driven recursive resolution, schedule, later-overrides-earlier), for every Inv pre-state, every request kind, every destination (case split) and batches of 2 (3 in thorough); reset() and no-request processing included.', '4 C02'),
  'C03': ('Lifecycle monitor automaton in the callback stub (enter/exit alternate, parent-before-child nesting, callbacks only on entered states, this == access<State>()) over one symbolic step from every Inv state, plus whole-life runs construct -> step -> destroy / enter() -> step -> exit() (Manual).', '4 C03'),
@@ -17,13 +22,14 @@ CHECKS = {
  'C19': ('TaskListT<void|payload,C> for C in {1,2,3,5}: every bounded sequence of symbolic insert/remove/clear from the empty pool AND a one-step inductive query from every pool state satisfying the representation invariant (covers histories of any length per capacity); DynamicArrayT/StaticArrayT against ghost sequences.', '4 C19'),
  'C20': ('Every bundled generator kernel is symbolically executed from the IR of the real header and compared, for ALL 32/64-bit seeds and ALL 128/256-bit states, with reference implementations written from the published splitmix/xoshiro algorithms (step, jump, seeding never all-zero, [0,1) range, storage-independent construction). Bounded only by the jump()/retry loop unwindings, which are checked by unwinding assertions.', '4 C20'),
 }
+READY = {'C03', 'C05', 'C07', 'C08', 'C10', 'C14', 'C15', 'C17', 'C18', 'C19', 'C20'}
 PENDING = {}
 def main():
     props = [json.loads(l) for l in open(os.path.join(HERE, 'properties.jsonl'))]
     checks = []; na = []
     for p in props:
         pid = p['id']
-        if pid in CHECKS:
+        if pid in CHECKS and pid in READY:
             text, ref = CHECKS[pid]
             checks.append(dict(property_id=pid, quick_cmd='python3 check.py %s --tier quick' % pid, thorough_cmd='python3 check.py %s --tier thorough' % pid,
                                evidence_file='evidence/%s.json' % pid, replay_cmd_template='python3 check.py %s --replay {path}' % pid,
